@@ -1,6 +1,7 @@
 import Duckling.Lemmas.LexAtoms
 import Duckling.Lemmas.LexGroup
 import Duckling.Lemmas.LexNum
+import Duckling.Lemmas.LexNameTF
 /-
   Flat expressions over ALL kinds of leaf values — unsigned numbers, variable names (among any set of names in scope), TRUE / FALSE,
   string literals, parenthesised groups `( … )` / `!( … )` around ANY balanced text — joined by any of the fourteen operators, with any
@@ -17,6 +18,7 @@ inductive Atom
   | str (content : Str)
   | grp (neg : Bool) (inner : Str)
   | lit (neg : Bool) (ip : Str) (fp : Option Str)      -- signed / decimal literal `[-]digits[.digits]`
+  | tfname (x : Str)                                   -- a name beginning with T or F that departs from TRUE / FALSE
 
 def Atom.text : Atom → Str
   | .num ds => ds
@@ -26,6 +28,7 @@ def Atom.text : Atom → Str
   | .str c => ['"'] ++ c ++ ['"']
   | .grp neg inner => grpText neg inner
   | .lit neg ip fp => litText neg ip fp
+  | .tfname x => x
 
 def Atom.tok : Atom → Tok
   | .num ds => ⟨.num, ds, false⟩
@@ -35,6 +38,7 @@ def Atom.tok : Atom → Tok
   | .str c => ⟨.str, c, false⟩
   | .grp neg inner => ⟨.grp, '(' :: (inner ++ [')']), neg⟩
   | .lit neg ip fp => ⟨.num, litText neg ip fp, false⟩
+  | .tfname x => ⟨.var, x, false⟩
 
 /-- no name in scope contains a character that separates tokens -/
 def NamesOk (names : List Str) : Prop := ∀ nm ∈ names, ∀ ch ∈ nm, ¬ Delim ch
@@ -47,6 +51,8 @@ def GoodAtom (names : List Str) : Atom → Prop
   | .str c => ∀ ch ∈ c, (ch == '"') = false
   | .grp _ inner => GoodGrp inner ∧ NoParenNames names
   | .lit _ ip fp => GoodLit ip fp
+  | .tfname x => names.contains x = true ∧ ∃ B iB d, iB < boolKws.length ∧ boolKws.getD iB [] = B ∧ BoolGivesUp B iB ∧ Departs x B d ∧
+      ∀ h : 0 < x.length, NameStart0 (x[0]'h) ∧ (x[0]'h == '/') = false ∧ (x[0]'h == '=') = false
 
 theorem delim_endsNum (c : Char) (h : Delim c) : EndsNum c := by
   rcases h with h | h
@@ -92,6 +98,12 @@ theorem atom_head (names : List Str) (a : Atom) (ha : GoodAtom names a) :
     cases neg with
     | false => exact ⟨d, r ++ fracText fp, by simp [Atom.text, litText], digit_ne d hd '/' (by decide), digit_ne d hd '=' (by decide)⟩
     | true => exact ⟨'-', d :: (r ++ fracText fp), by simp [Atom.text, litText], by decide, by decide⟩
+  | tfname x =>
+    obtain ⟨_, B, iB, d, _, _, _, hd, hst⟩ := ha
+    have hlen : 0 < x.length := by have := hd.ltx; omega
+    cases x with
+    | nil => simp at hlen
+    | cons c r => exact ⟨c, r, rfl, by simpa using (hst hlen).2.1, by simpa using (hst hlen).2.2⟩
 
 theorem atom_text_pos (names : List Str) (a : Atom) (ha : GoodAtom names a) : 0 < a.text.length := by
   obtain ⟨c, r, h, _⟩ := atom_head names a ha
@@ -177,12 +189,12 @@ theorem steps_fls (names : List Str) (inp : Array Char) (off : Nat) (out : List 
 theorem steps_atom_delim (names : List Str) (hn : NamesOk names) (inp : Array Char) (off : Nat) (out : List Tok) (a : Atom)
     (ha : GoodAtom names a) (hat : At inp off a.text) (c : Char) (hc : Delim c)
     (hnext : ∃ h : off + a.text.length < inp.size, inp[off + a.text.length]'h = c) :
-    ∃ n, n ≤ a.text.length + 1 ∧ Steps names inp n (sV off out) (sO (off + a.text.length) (a.tok :: out)) := by
+    ∃ n, n ≤ 2 * a.text.length + 1 ∧ Steps names inp n (sV off out) (sO (off + a.text.length) (a.tok :: out)) := by
   obtain ⟨hidx, ec⟩ := hnext
   cases a with
   | num ds =>
     have hlen : 0 < ds.length := atom_text_pos names (.num ds) ha
-    exact ⟨ds.length + 1, by simp [Atom.text], Steps.trans (steps_digits names inp off out ds ha.1 ha.2 hat)
+    exact ⟨ds.length + 1, by first | (simp [Atom.text]; done) | (simp [Atom.text]; omega) | (simp only [Atom.text]; omega), Steps.trans (steps_digits names inp off out ds ha.1 ha.2 hat)
       (step_close_num names inp off out ds hlen c (delim_endsNum c hc) hidx ec)⟩
   | name x =>
     obtain ⟨hin, hlen, hstart, _, _⟩ := ha
@@ -193,34 +205,44 @@ theorem steps_atom_delim (names : List Str) (hn : NamesOk names) (inp : Array Ch
       refine Steps.one (s := varStG off out x x.length k) (by simpa [varStG, Atom.text] using hidx) ?_
       rw [show inp[(varStG off out x x.length k).idx]'(by simpa [varStG, Atom.text] using hidx) = c by simpa [varStG, Atom.text] using ec]
       exact step_close_name names names x hin hlen off out k hk c (noext_of_namesOk names hn x c hc)
-  | tru => exact ⟨4, by decide, steps_tru names inp off out hat⟩
-  | fls => exact ⟨5, by decide, steps_fls names inp off out hat⟩
+  | tru => exact ⟨4, by (simp [Atom.text]), steps_tru names inp off out hat⟩
+  | fls => exact ⟨5, by (simp [Atom.text]), steps_fls names inp off out hat⟩
   | str content =>
     have h := steps_str names inp off out content ha hat
-    refine ⟨content.length + 2, by simp [Atom.text], ?_⟩
-    have e : (Atom.str content).text.length = content.length + 2 := by simp [Atom.text]
+    refine ⟨content.length + 2, by first | (simp [Atom.text]; done) | (simp [Atom.text]; omega) | (simp only [Atom.text]; omega), ?_⟩
+    have e : (Atom.str content).text.length = content.length + 2 := by first | (simp [Atom.text]; done) | (simp [Atom.text]; omega) | (simp only [Atom.text]; omega)
     rw [e]
     exact h
   | grp neg inner =>
-    exact ⟨(grpText neg inner).length, by simp [Atom.text], steps_grp names ha.2 inp off out neg inner ha.1 hat⟩
+    exact ⟨(grpText neg inner).length, by first | (simp [Atom.text]; done) | (simp [Atom.text]; omega) | (simp only [Atom.text]; omega), steps_grp names ha.2 inp off out neg inner ha.1 hat⟩
   | lit neg ip fp =>
     have h1 := steps_lit names inp off out neg ip fp ha hat
     have hlen : (if neg then 2 else 1) ≤ (litText neg ip fp).length := by
       rcases litText_length neg ip fp with h | h
       · exact h
       · exact absurd h ha.1
-    refine ⟨(litText neg ip fp).length + 1, by simp [Atom.text], Steps.trans h1 ?_⟩
+    refine ⟨(litText neg ip fp).length + 1, by first | (simp [Atom.text]; done) | (simp [Atom.text]; omega) | (simp only [Atom.text]; omega), Steps.trans h1 ?_⟩
     refine Steps.one (s := numG off out (litText neg ip fp) fp.isSome neg) (by simpa [numG, Atom.text] using hidx) ?_
     rw [show inp[(numG off out (litText neg ip fp) fp.isSome neg).idx]'(by simpa [numG, Atom.text] using hidx) = c by simpa [numG, Atom.text] using ec]
     exact step_numG_close names off out (litText neg ip fp) fp.isSome neg hlen c (delim_endsNum c hc)
+  | tfname x =>
+    obtain ⟨hin, B, iB, d, hiB, hB, hg, hd, hst⟩ := ha
+    have hlen : 0 < x.length := by have := hd.ltx; omega
+    obtain ⟨n, s, hnle, hsteps, hs⟩ := steps_name_tf names inp x B iB hiB hB hg d hd hin (hst hlen).1 off out hat
+    rcases hs with rfl | ⟨k, rfl, hk⟩
+    · exact ⟨n, by simp only [Atom.text]; omega, hsteps⟩
+    · refine ⟨n + 1, by simp only [Atom.text]; omega, Steps.trans hsteps ?_⟩
+      refine Steps.one (s := varStG off out x x.length k) (by simpa [varStG, Atom.text] using hidx) ?_
+      rw [show inp[(varStG off out x x.length k).idx]'(by simpa [varStG, Atom.text] using hidx) = c by simpa [varStG, Atom.text] using ec]
+      exact step_close_name names names x hin hlen off out k hk c (noext_of_namesOk names hn x c hc)
 
 /-- **A2**: an atom at the end of the text -/
 theorem steps_atom_end (names : List Str) (inp : Array Char) (off : Nat) (out : List Tok) (a : Atom)
     (ha : GoodAtom names a) (hat : At inp off a.text) (hend : off + a.text.length = inp.size) :
-    ∃ n sEnd, n ≤ a.text.length ∧ sEnd.idx = inp.size ∧ Steps names inp n (sV off out) sEnd ∧ finOut sEnd = .ok (a.tok :: out) := by
+    ∃ n sEnd, n ≤ 2 * a.text.length ∧ sEnd.idx = inp.size ∧ Steps names inp n (sV off out) sEnd ∧ finOut sEnd = .ok (a.tok :: out) := by
   cases a with
   | num ds =>
-    refine ⟨ds.length, numStG off out ds ds.length, by simp [Atom.text], by simpa [numStG, Atom.text] using hend,
+    refine ⟨ds.length, numStG off out ds ds.length, by first | (simp [Atom.text]; done) | (simp [Atom.text]; omega) | (simp only [Atom.text]; omega), by simpa [numStG, Atom.text] using hend,
       steps_digits names inp off out ds ha.1 ha.2 hat, ?_⟩
     simp [finOut, lexFinish, numStG, appendSwitch, TokSt.closed, setValueCheck, TokSt.cls, TokSt.opp, Atom.tok]
   | name x =>
@@ -228,8 +250,8 @@ theorem steps_atom_end (names : List Str) (inp : Array Char) (off : Nat) (out : 
     have hmem : x ∈ names := by simpa using hin
     obtain ⟨n, s, hnle, hsteps, hs⟩ := steps_name names inp x hin hlen hstart off out hat
     rcases hs with rfl | ⟨k, rfl, hk⟩
-    · exact ⟨n, _, by simpa [Atom.text] using hnle, by simpa [sO, Atom.text] using hend, hsteps, by simp [finOut, lexFinish, sO, Atom.tok]⟩
-    · refine ⟨n, _, by simpa [Atom.text] using hnle, by simpa [varStG, Atom.text] using hend, hsteps, ?_⟩
+    · exact ⟨n, _, by simp only [Atom.text]; omega, by simpa [sO, Atom.text] using hend, hsteps, by simp [finOut, lexFinish, sO, Atom.tok]⟩
+    · refine ⟨n, _, by simp only [Atom.text]; omega, by simpa [varStG, Atom.text] using hend, hsteps, ?_⟩
       simp [finOut, lexFinish, varStG, appendSwitch, TokSt.closed, setValueCheck, TokSt.cls, TokSt.kws, hk.1, hmem, TokSt.opp, Atom.tok]
   | tru =>
     exact ⟨4, _, by decide, by simpa [sO, Atom.text] using hend, steps_tru names inp off out hat, by simp [finOut, lexFinish, sO, Atom.tok]⟩
@@ -237,15 +259,24 @@ theorem steps_atom_end (names : List Str) (inp : Array Char) (off : Nat) (out : 
     exact ⟨5, _, by decide, by simpa [sO, Atom.text] using hend, steps_fls names inp off out hat, by simp [finOut, lexFinish, sO, Atom.tok]⟩
   | str content =>
     have h := steps_str names inp off out content ha hat
-    have e : (Atom.str content).text.length = content.length + 2 := by simp [Atom.text]
-    refine ⟨content.length + 2, _, by omega, ?_, h, by simp [finOut, lexFinish, sO, Atom.tok]⟩
+    have e : (Atom.str content).text.length = content.length + 2 := by first | (simp [Atom.text]; done) | (simp [Atom.text]; omega) | (simp only [Atom.text]; omega)
+    refine ⟨content.length + 2, _, by (simp [Atom.text]; omega), ?_, h, by simp [finOut, lexFinish, sO, Atom.tok]⟩
     simp only [sO]; omega
   | grp neg inner =>
-    exact ⟨(grpText neg inner).length, _, by simp [Atom.text], by simpa [sO, Atom.text] using hend,
+    exact ⟨(grpText neg inner).length, _, by first | (simp [Atom.text]; done) | (simp [Atom.text]; omega) | (simp only [Atom.text]; omega), by simpa [sO, Atom.text] using hend,
       steps_grp names ha.2 inp off out neg inner ha.1 hat, by simp [finOut, lexFinish, sO, Atom.tok]⟩
   | lit neg ip fp =>
-    exact ⟨(litText neg ip fp).length, _, by simp [Atom.text], by simpa [numG, Atom.text] using hend,
+    exact ⟨(litText neg ip fp).length, _, by first | (simp [Atom.text]; done) | (simp [Atom.text]; omega) | (simp only [Atom.text]; omega), by simpa [numG, Atom.text] using hend,
       steps_lit names inp off out neg ip fp ha hat, by simpa [Atom.tok] using finOut_numG off out (litText neg ip fp) fp.isSome neg⟩
+  | tfname x =>
+    obtain ⟨hin, B, iB, d, hiB, hB, hg, hd, hst⟩ := ha
+    have hlen : 0 < x.length := by have := hd.ltx; omega
+    have hmem : x ∈ names := by simpa using hin
+    obtain ⟨n, s, hnle, hsteps, hs⟩ := steps_name_tf names inp x B iB hiB hB hg d hd hin (hst hlen).1 off out hat
+    rcases hs with rfl | ⟨k, rfl, hk⟩
+    · exact ⟨n, _, by simpa [Atom.text] using hnle, by simpa [sO, Atom.text] using hend, hsteps, by simp [finOut, lexFinish, sO, Atom.tok]⟩
+    · refine ⟨n, _, by simpa [Atom.text] using hnle, by simpa [varStG, Atom.text] using hend, hsteps, ?_⟩
+      simp [finOut, lexFinish, varStG, appendSwitch, TokSt.closed, setValueCheck, TokSt.cls, TokSt.kws, hk.1, hmem, TokSt.opp, Atom.tok]
 
 end Duckling
 
@@ -283,7 +314,7 @@ theorem steps_expr (names : List Str) (hn : NamesOk names) (inp : Array Char) (t
     ∀ (a : Atom) (off : Nat) (out : List Tok), GoodAtom names a → GoodExprRest names rest →
       At inp off (a.text ++ (exprRestText rest ++ trail)) →
       off + (a.text ++ (exprRestText rest ++ trail)).length = inp.size →
-      ∃ n sEnd, n ≤ 2 * (a.text ++ (exprRestText rest ++ trail)).length ∧ sEnd.idx = inp.size ∧
+      ∃ n sEnd, n ≤ 3 * (a.text ++ (exprRestText rest ++ trail)).length ∧ sEnd.idx = inp.size ∧
         Steps names inp n (sV off out) sEnd ∧ finOut sEnd = .ok ((exprToks a rest).reverse ++ out) := by
   induction rest with
   | nil =>
